@@ -92,6 +92,10 @@ def _one(chk, fi, ex, rules):
                     "false green" if want else "false red")))
         if f["v2_err"]:
             chk.fail(_f("V2", fi, ex, "undefined-not-recorded", f["v2_err"]))
+        if selected is False and f["undefined_added"]:
+            chk.fail(_f("V2", fi, ex, "undefined-recorded-for-unselected dry=%s" % dry,
+                        "a step of a NOT selected scenario is recorded as undefined: the run fails although "
+                        "nothing went wrong in the selected part (false red)"))
 
     if "S3" in rules:
         if f["s3_err"]:
